@@ -26,7 +26,8 @@ type Ctx struct {
 	sets       map[string]*DSet
 	known      map[string]*KnownHit
 	sample     interface{}
-	Steps      int64
+	Steps      int64 // yields of the whole case (statistics)
+	opSteps    int64 // yields since the current guarded call began (the bound applies to one call)
 	StepLimit  int64
 	VirtualNs  int64
 
@@ -123,7 +124,8 @@ func installHooks(c *Ctx) {
 	verifsim.H = &verifsim.Hooks{
 		Yield: func(site int) {
 			c.Steps++
-			if c.Steps > c.StepLimit {
+			c.opSteps++
+			if c.opSteps > c.StepLimit {
 				panic(stepLimit{})
 			}
 			if c.yieldFn != nil {
@@ -132,7 +134,8 @@ func installHooks(c *Ctx) {
 		},
 		Blocked: func() {
 			c.Steps++
-			if c.Steps > c.StepLimit {
+			c.opSteps++
+			if c.opSteps > c.StepLimit {
 				panic(stepLimit{})
 			}
 			c.C["lock_contention_yields"]++
@@ -171,6 +174,12 @@ func installHooks(c *Ctx) {
 				return nil, os.ErrNotExist
 			}
 			return c.disk.Stat(name)
+		},
+		RealPath: func(op, name string) (string, error) {
+			if c.disk == nil {
+				return "", os.ErrNotExist
+			}
+			return c.disk.RealPath(op, name)
 		},
 		OpenFile: func(name string, flag int, perm os.FileMode) (*verifsim.File, error) {
 			if c.disk == nil {
@@ -488,6 +497,11 @@ func writeEvidence(path string, p *Property, tier string, seed uint64, cases int
 	}
 	if p.Notes != nil {
 		cov["notes"] = p.Notes()
+	}
+	if os.Getenv("VERIF_DISKMODE") == "real" {
+		cov["disk_mode"] = "real files under a private directory (the tree names *os.File explicitly, so verifsim.File cannot stand in for it): torn writes, stored-byte flips, open/stat/create failures and pre-existing files are injected; read delivery schedules, EIO and reported write errors are not"
+	} else {
+		cov["disk_mode"] = "in-memory simulated disk (verifsim.File)"
 	}
 	if len(samples) == 0 {
 		cov["samples"] = []interface{}{"(no sample recorded)"}
